@@ -18,11 +18,21 @@ pub static SLOW_DROP: std::sync::atomic::AtomicBool = std::sync::atomic::AtomicB
 pub static LATE: AtomicUsize = AtomicUsize::new(0);
 pub static TL2_INIT: AtomicUsize = AtomicUsize::new(0);
 pub static TL2_DROP: AtomicUsize = AtomicUsize::new(0);
-pub struct TlLate;
+pub struct TlLate {
+    /// a tracked object: a value that is not destroyed inside the execution shows up in loom's leak check as well
+    _owned: loom::sync::Arc<u32>,
+}
 impl TlLate {
     fn new() -> TlLate {
         TL2_INIT.fetch_add(1, SeqCst);
-        TlLate
+        TlLate { _owned: loom::sync::Arc::new(0) }
+    }
+}
+/// what a detached child returns: nobody takes the value, the thread itself drops it on its way out, after its closure
+pub struct RetGuard;
+impl Drop for RetGuard {
+    fn drop(&mut self) {
+        let _ = TL2.try_with(|_| ());
     }
 }
 impl Drop for TlLate {
@@ -87,6 +97,10 @@ impl LzVal {
 }
 impl Drop for LzVal {
     fn drop(&mut self) {
+        if self.k == 0 && LATE.load(SeqCst) & 4 != 0 {
+            // a global whose destructor is the first user of a thread-local of the main thread
+            let _ = TL2.try_with(|_| ());
+        }
         LZ_DROP[self.k].fetch_add(1, SeqCst);
         LZ_DROP_ORDER.lock().unwrap().push(self.k);
     }
@@ -175,13 +189,22 @@ pub struct StProg {
     pub slow_drop: bool,
     /// what the destructor of thread-local 0 does besides counting: bit 0 - it reads lazy static 0 if this iteration has
     /// initialised it (a destructor that uses a global); bit 1 - it is the first user of a third thread-local, which
-    /// must then be destroyed at thread exit as well
+    /// must then be destroyed at thread exit as well; bit 2 - the destructor of lazy static 0 is the first user of that
+    /// thread-local (in the main thread, after the main thread's own destructors ran); bit 3 - the children are detached
+    /// (JoinHandle dropped) and return a value whose destructor is the first user of it
     #[serde(default)]
     pub late: u8,
 }
 impl StProg {
     pub fn s(&self) -> String {
-        format!("{}{}{}", if self.join_first { "[join first] " } else { "" }, if self.slow_drop { "[destructors yield] " } else { "" }.to_string() + match self.late { 0 => "", 1 => "[TL0's destructor reads LZ0] ", 2 => "[TL0's destructor initialises TL2] ", _ => "[TL0's destructor reads LZ0 and initialises TL2] " }, self.threads.iter().map(|t| t.iter().map(|o| format!("{:?}", o)).collect::<Vec<_>>().join("; ")).collect::<Vec<_>>().join("  ||  "))
+        format!("{}{}{}", if self.join_first { "[join first] " } else { "" }, if self.slow_drop { "[destructors yield] " } else { "" }.to_string() + &{
+            let mut l = String::new();
+            if self.late & 1 != 0 { l += "[TL0's destructor reads LZ0] " }
+            if self.late & 2 != 0 { l += "[TL0's destructor initialises TL2] " }
+            if self.late & 4 != 0 { l += "[LZ0's destructor initialises TL2] " }
+            if self.late & 8 != 0 { l += "[detached children return a value whose destructor initialises TL2] " }
+            l
+        }, self.threads.iter().map(|t| t.iter().map(|o| format!("{:?}", o)).collect::<Vec<_>>().join("; ")).collect::<Vec<_>>().join("  ||  "))
     }
 }
 
@@ -353,19 +376,25 @@ pub fn run_loom(p: &StProg, iter_cap: usize) -> SRes {
             let mut hs = Vec::new();
             for t in 1..p2.threads.len() {
                 let (p3, x3, a3, e3, ev3) = (p2.clone(), x.clone(), addrs.clone(), e2.clone(), ev2.clone());
-                hs.push(loom::thread::spawn(move || exec(&p3.threads[t], t, &x3, &a3, &e3, &ev3)));
+                hs.push(loom::thread::spawn(move || {
+                    exec(&p3.threads[t], t, &x3, &a3, &e3, &ev3);
+                    RetGuard
+                }));
+            }
+            if p2.late & 8 != 0 {
+                hs.clear();
             }
             let mut joined = 0;
             if p2.join_first {
                 for h in hs.drain(..) {
-                    h.join().unwrap();
+                    std::mem::forget(h.join().unwrap());
                     joined += 1;
                     joined_check(joined);
                 }
             }
             exec(&p2.threads[0], 0, &x, &addrs, &e2, &ev2);
             for h in hs {
-                h.join().unwrap();
+                std::mem::forget(h.join().unwrap());
                 joined += 1;
                 joined_check(joined);
             }
@@ -437,6 +466,13 @@ fn core() -> &'static Vec<StProg> {
             v.push(StProg { threads: vec![vec![StOp::Lz(0)], vec![StOp::Tl(0)]], join_first: false, slow_drop: false, late });
             v.push(StProg { threads: vec![vec![StOp::Tl(0)], vec![StOp::Lz(0), StOp::Tl(0), StOp::Tl(1)]], join_first: true, slow_drop: false, late });
         }
+        // first users of a thread-local that come after the thread's ordinary destructor pass: a global's destructor in
+        // the main thread, the unclaimed return value of a detached thread
+        for late in [4u8, 8, 12, 6, 5] {
+            v.push(StProg { threads: vec![vec![StOp::Lz(0)]], join_first: false, slow_drop: false, late });
+            v.push(StProg { threads: vec![vec![StOp::Lz(0), StOp::Tl(0)], vec![StOp::Tl(0)]], join_first: false, slow_drop: false, late });
+            v.push(StProg { threads: vec![vec![StOp::ALoad], vec![StOp::Lz(0), StOp::AStore], vec![StOp::Tl(1)]], join_first: false, slow_drop: late == 12, late });
+        }
         // racing first accesses to the lazy static whose initialiser has a scheduling point that is not a yield
         v.push(StProg { threads: vec![vec![StOp::LzRmw], vec![StOp::AStore, StOp::LzRmw]], join_first: false, slow_drop: false, late: 0 });
         v.push(StProg { threads: vec![vec![StOp::ALoad, StOp::LzRmw], vec![StOp::LzRmw], vec![StOp::AStore, StOp::LzRmw]], join_first: false, slow_drop: false, late: 0 });
@@ -458,14 +494,34 @@ pub fn total(tier: u8) -> usize {
 pub fn prog_at(_tier: u8, seed: u64, idx: usize) -> StProg {
     let c = core();
     if idx < c.len() {
-        return c[idx].clone();
+        return norm(c[idx].clone());
     }
     let mut rng = Rng::new(seed, (idx - c.len()) as u64 ^ 0xC17);
     let t = 1 + rng.below(4);
     let al = alphabet();
     let k = if t >= 3 { 2 } else { 3 };
     let threads = (0..t).map(|_| (0..1 + rng.below(k)).map(|_| *rng.pick(&al)).collect()).collect();
-    StProg { threads, join_first: rng.chance(1, 4), slow_drop: rng.chance(1, 4), late: if rng.chance(1, 5) { 1 + rng.below(3) as u8 } else { 0 } }
+    norm(StProg { threads, join_first: rng.chance(1, 4), slow_drop: rng.chance(1, 4), late: if rng.chance(1, 4) { 1 + rng.below(15) as u8 } else { 0 } })
+}
+
+/// loom drops the lazy statics when the main thread's closure has returned and refuses later accesses ("attempted to
+/// access lazy_static during shutdown"), as a process that leaves `main` does: detached children that may outlive the
+/// main thread do not use lazy statics
+fn norm(mut p: StProg) -> StProg {
+    if p.late & 8 != 0 {
+        p.late &= !1;
+        for t in p.threads.iter_mut().skip(1) {
+            for o in t.iter_mut() {
+                *o = match *o {
+                    StOp::Lz(k) => StOp::Tl(k),
+                    StOp::LzSlow => StOp::TlNested,
+                    StOp::LzRmw => StOp::ALoad,
+                    x => x,
+                };
+            }
+        }
+    }
+    p
 }
 
 pub fn judge(p: &StProg, rec: &mut Rec, tier: u8) {
